@@ -60,6 +60,10 @@ package selector
 //@ // the value after the first i segments (a trace, defined by recursion over the selector in the heap)
 //@ ghost func tr(sel Selector, subject datamodel.Node, i int) datamodel.Node
 //@
+//@ // the outcome of a whole selector, as functions of (selector, subject)
+//@ pure func wfSel(sel Selector) bool = forall i int :: {sel[i]} 0 <= i && i < len(sel) ==> wfSeg(sel[i])
+//@ pure func selOK(sel Selector, n datamodel.Node) bool = forall i int :: 0 <= i && i < len(sel) ==> !stepFails(sel[i], tr(sel, n, i))
+//@ pure func selVal(sel Selector, n datamodel.Node) datamodel.Node = tr(sel, n, len(sel))
 //@ func resolve
 //@   requires forall i int :: 0 <= i && i < len(sel) ==> wfSeg(sel[i])
 //@   given tr(sel, subject, 0) == subject
